@@ -75,3 +75,11 @@ Theorem C01_monitor_accepts_model : forall lower now c u r a,
   mediation_holds lower c u (model_obs lower now c u r a) = true.
 Proof. exact monitor_accepts_model. Qed.
 Print Assumptions C01_monitor_accepts_model.
+
+(* [session_ok] is EXACTLY the admission condition: a session in order is admitted (no request of a
+   valid session is refused), and nothing else is. *)
+From V Require Import ProxyComplete_proofs.
+Theorem C01_session_ok_exact : forall lower now c u host s a,
+  ao_err (authenticate lower now c u host (Sealed s) a) = None <-> session_ok lower now c u host s a.
+Proof. exact authenticate_iff. Qed.
+Print Assumptions C01_session_ok_exact.
